@@ -47,11 +47,30 @@ func fuzzSeeds() [][]byte {
 	}
 }
 
+// fuzzSeedsDeferred: deferred directory metadata - the directory is replaced by a symlink and
+// its pending update is applied early (shorter sibling / shallower directory) or at the end.
+// Added with an explicit target kind (fresh, pre-populated).
+func fuzzSeedsDeferred() [][]byte {
+	rel := func(s string) string { return s }
+	mk := func(es ...Entry) []byte { b, _ := buildTar("auto", es, rel); return b }
+	root := Entry{Name: "root", Type: "dir", Mode: 0o755}
+	return [][]byte{
+		mk(root, Entry{Name: "root/dd", Type: "dir", Mode: 0o700, HasTime: true, Sec: 1e9}, Entry{Name: "root/dd", Type: "symlink", Link: "../outside/dir"},
+			Entry{Name: "root/e", Type: "dir", Mode: 0o755}),
+		mk(root, Entry{Name: "root/d", Type: "dir", Mode: 0o755}, Entry{Name: "root/d/e", Type: "dir", Mode: 0o777}, Entry{Name: "root/d/e", Type: "symlink", Link: "../../outside/victim"},
+			Entry{Name: "root/f", Type: "dir", Mode: 0o700, HasTime: true, Sec: 5}, Entry{Name: "root/f/d", Type: "dir", Mode: 0o711}),
+	}
+}
+
 // FuzzExtract feeds raw tar bytes to the extractor inside the sandbox and applies the same
 // containment oracle as the generated check.
 func FuzzExtract(f *testing.F) {
 	for i, s := range fuzzSeeds() {
 		f.Add(s, uint8(i))
+	}
+	for _, s := range fuzzSeedsDeferred() {
+		f.Add(s, uint8(0))
+		f.Add(s, uint8(1))
 	}
 	f.Fuzz(func(t *testing.T, data []byte, kind uint8) {
 		if len(data) > 1<<16 {
